@@ -612,10 +612,10 @@ def incGen (inc : Array Nat → Nat → Nat → Array Nat × Bool) (rst : Sketch
     (idx : Nat → Nat) (st : Nat) (s : Sketch) : Except Fault Sketch :=
   if s.table.size = 0 then .ok s
   else
-    let (t, a0) := inc s.table (idx 0) (st + 0)
-    let (t, a1) := inc t (idx 1) (st + 1)
-    let (t, a2) := inc t (idx 2) (st + 2)
-    let (t, a3) := inc t (idx 3) (st + 3)
+    increment.match_1 (fun _ => Except Fault Sketch) (inc s.table (idx 0) (st + 0)) fun t a0 =>
+    increment.match_1 (fun _ => Except Fault Sketch) (inc t (idx 1) (st + 1)) fun t a1 =>
+    increment.match_1 (fun _ => Except Fault Sketch) (inc t (idx 2) (st + 2)) fun t a2 =>
+    increment.match_1 (fun _ => Except Fault Sketch) (inc t (idx 3) (st + 3)) fun t a3 =>
     if a0 || a1 || a2 || a3 then
       if s.size + 1 > U32_MAX then .error .overflow
       else
@@ -702,9 +702,11 @@ theorem increment_eq_bump (legacy : Bool) (s : Sketch) (hash : UInt64) :
         else .ok (bump s hash)
       else .ok (bump s hash) := by
   rw [increment_eq_incGen, incGen_eq]
+  have e : bumpTableGen incrementAt (s.indexOf hash) (start hash) s.table = bumpTable s hash := rfl
+  rw [e]
   by_cases ha : (bumpTable s hash).2 = true
-  · rw [bump_of_added s hash ha]; rfl
-  · rw [bump_of_not_added s hash ha]; rfl
+  · rw [bump_of_added s hash ha, if_pos ha, if_pos ha]
+  · rw [bump_of_not_added s hash ha, if_neg ha, if_neg ha]
 
 /-- `incrStep` is `Sketch.increment false` plus the aging flag. -/
 theorem increment_eq_incrStep (s : Sketch) (hash : UInt64) :
